@@ -49,7 +49,7 @@ CLAIMS = {
          "Widths >= 127 bits panic in a debug-profile generator (noted, outside the property's 1..16). " + TB, "5 C15"),
 
  "C16": ("C16_front_ends_agree (FULL, no hypothesis on the defaults since D5 was repaired): for every well-formed abstract definition and every structural spelling, lower_dsl (to_dsl d) and lower_manifest (to_manifest d) give the same MIR or reject in the same class; C16_both_implement_the_meaning, C16_same_decision_and_output, C16_defaults_applied, C16_defaults_ignored_would_differ (the pre-fix lowering differs: not vacuous), C16_dsl_first_item_wins; tie = (text) six streams of abstract definitions rendered into DSL/JSON/YAML/TOML with random spellings: verdict, tokens hash and MIR Debug strings identical across the four; (model) Front.v's two lowerings vs the real MIR of each front end.",
-         "The text parsers (syn, serde_json, yaml-rust2, toml, dd-manifest-tree integer forms) are exercised, not modelled; descriptions compared at text level only; D19 (cfg token spacing) is a known finding. " + TB, "5 C16"),
+         "The text parsers (syn, serde_json, yaml-rust2, toml, dd-manifest-tree integer forms) are exercised, not modelled; descriptions compared at text level only; D19 (cfg token spacing) was repaired in /repo (aaadff3); the spacing probe reports a violation if it returns. " + TB, "5 C16"),
  "C03": ("Ops half: C03_ops_safe_load/store and C03_store_footprint — in the model every out-of-slice access, usize underflow or over-wide shift is a Fail, and in-bounds calls are proved never to Fail and to change no byte outside the covered bytes; tie = canary-guarded debug build of the real ops vs the model on the exhaustive geometry. Generator half: accepted definitions only emit in-bounds call sites (C03_accepted_accessors_in_bounds) checked against the call sites of real generator output.",
          "Release-build UB is not observable directly; debug_assert!/canaries/Miri (thorough) are the observers. " + TB, "5 C03"),
 }
